@@ -447,6 +447,329 @@ theorem attr_aggr_int (env : Env F) (strict : Bool) (a : AttrD) (hty : a.ty = .a
   simp only [hx, if_false]
   rw [cri_seps env.lex hcfg seps hs _ rest d false sk .null hd]
 
+/-! ### STRING -/
+
+theorem seps_head_not_apos (seps : List Byte) (hs : Seps seps) (d : Byte) (rest : List Byte) (hd : d = 44 ∨ d = 41) :
+    ∃ c u, seps ++ d :: rest = c :: u ∧ c ≠ 39 := by
+  obtain ⟨c, u, h, hc⟩ : ∃ c u, seps ++ d :: rest = c :: u ∧ (isSpace c = true ∨ c = 47 ∨ c = 44 ∨ c = 41) := by
+    cases hs with
+    | blanks _ hsp =>
+      cases seps with
+      | nil => exact ⟨d, rest, rfl, by rcases hd with rfl | rfl <;> simp⟩
+      | cons x sp' => exact ⟨x, sp' ++ d :: rest, rfl, Or.inl (by simp at hsp; exact hsp.1)⟩
+    | comment sp body t hsp hb ht =>
+      cases sp with
+      | nil => exact ⟨47, _, rfl, Or.inr (Or.inl rfl)⟩
+      | cons x sp' => exact ⟨x, _, rfl, Or.inl (by simp at hsp; exact hsp.1)⟩
+  refine ⟨c, u, h, ?_⟩
+  intro e; subst e
+  rcases hc with h1 | h1 | h1 | h1 <;> revert h1 <;> decide
+
+theorem scalarNodeRead_string (env : Env F) (s : IStream) :
+    scalarNodeRead env .string s =
+      .ok ((stringRead s .null).2.2, (if (stringRead s .null).1.isEmpty then Atom.unset else Atom.str (stringRead s .null).1),
+           (stringRead s .null).2.1) := by
+  unfold scalarNodeRead
+  rfl
+
+/-- `SDAI_String::STEPread` on a literal of the string grammar standing anywhere: the literal itself (encoded form), no
+    error; the stream's `skipws` flag is left switched off -/
+theorem stringRead_tok (b : List Byte) (hb : StringBody b) (l : List Byte) (sk : Bool) (c : Byte) (u : List Byte) (hc : c ≠ 39) :
+    stringRead (G l (39 :: (b ++ 39 :: c :: u)) sk) .null =
+      (39 :: (b ++ [39]), G (39 :: (b.reverse ++ 39 :: l)) (c :: u) false, .null) := by
+  obtain ⟨e1, e2⟩ := litLoop_body b hb [39] (39 :: c :: u) rfl
+  have hll : litLoop [39] true (b ++ 39 :: c :: u) = (39 :: (b.reverse ++ [39]), c :: u, false, false) := by
+    rw [e1, litLoop_quote, e2]
+    simp only [Bool.false_eq_true, if_false, Bool.not_true]
+    have : (c == 39) = false := by simpa using hc
+    simp [litLoop, this]
+  simp only [stringRead, IStream.setSkipws, getLiteralStr, ws_good0 _ _ _ _ (show isSpace 39 = false from by decide),
+    IStream.good, Bool.not_false, Bool.and_self, Bool.not_true, beq_self_eq_true, if_true, hll, Bool.false_eq_true, if_false]
+  simp
+
+/-- a STRING attribute: any literal of the string grammar (every control directive, in any position) -/
+theorem attr_string (env : Env F) (strict : Bool) (a : AttrD) (hty : a.ty = .one .string) (hder : a.derived = false)
+    (hcfg : env.lex.criSkipsComments = true) (b : List Byte) (hb : StringBody b)
+    (l : List Byte) (sk : Bool) (seps : List Byte) (hs : Seps seps) (d : Byte) (rest : List Byte) (hd : d = 44 ∨ d = 41) :
+    attrSTEPread env strict a (G l (39 :: (b ++ [39]) ++ (seps ++ d :: rest)) sk) =
+      .ok (.null, .one (.atom (.str (39 :: (b ++ [39])))),
+           G (seps.reverse ++ ((39 :: (b ++ [39])).reverse ++ l)) (d :: rest) false) := by
+  obtain ⟨c, u, hcu, hc39⟩ := seps_head_not_apos seps hs d rest hd
+  have hshape : 39 :: (b ++ [39]) ++ (seps ++ d :: rest) = 39 :: (b ++ 39 :: c :: u) := by rw [← hcu]; simp
+  unfold attrSTEPread
+  rw [hshape, show (G l (39 :: (b ++ 39 :: c :: u)) sk).ws = G l (39 :: (b ++ 39 :: c :: u)) sk from ws_good0 l 39 _ sk (by decide)]
+  simp only [bind, Except.bind, pure, Except.pure]
+  rw [show (G l (39 :: (b ++ 39 :: c :: u)) sk).peekC = (39, G l (39 :: (b ++ 39 :: c :: u)) sk) from peekC_good l 39 _ sk]
+  have e36 : ((39 : Byte) == 36) = false := by decide
+  have e44 : ((39 : Byte) == 44) = false := by decide
+  have e41 : ((39 : Byte) == 41) = false := by decide
+  simp only [hder, Bool.false_eq_true, if_false, e36, e44, e41, Bool.or_self, hty]
+  unfold attrSTEPread.scalarNodeReadAttr
+  simp only [bind, Except.bind, pure, Except.pure]
+  rw [scalarNodeRead_string, stringRead_tok b hb l sk c u hc39]
+  simp only
+  have hcri := cri_seps env.lex hcfg seps hs (39 :: (b.reverse ++ 39 :: l)) rest d false false .null hd
+  rw [← hcu, hcri]
+  simp
+
+/-! ### ENUMERATION / BOOLEAN / LOGICAL -/
+
+/-- `SDAI_Enum::STEPread` on `.` word `.` standing anywhere, the upper-cased word being item `i` of the kind's table (not
+    the unset slot), followed by a character that is not a word character: item `i`, no error -/
+theorem enumRead_tok (lex : LexCfg) (k : EnumKind) (optional : Bool) (name : List Byte) (i : Nat)
+    (hne : name ≠ []) (hname : name.all pw = true) (hfind : findName k.table (name.map toUpper) = some i)
+    (hset : k.isUnsetIdx i = false) (l : List Byte) (sk : Bool) (R : List Byte) :
+    enumRead lex k optional (G l (46 :: (name ++ 46 :: R)) sk) .null =
+      (some i, G (46 :: (name.reverse ++ 46 :: l)) R sk, .null) := by
+  obtain ⟨n0, nu, rfl⟩ : ∃ n0 nu, name = n0 :: nu := by
+    cases name with
+    | nil => exact absurd rfl hne
+    | cons n0 nu => exact ⟨n0, nu, rfl⟩
+  obtain ⟨w, rst, h1, h2, h3⟩ := enumWord_spec n0 (46 :: l) (nu ++ 46 :: R) sk
+  have hsplit : (n0 :: nu) ++ (46 :: R) = w ++ rst := by simpa using h1
+  have hrst : rst = [] ∨ ∃ c t, rst = c :: t ∧ pw c = false := by
+    rcases h3 with ⟨hw, hp, _⟩ | ⟨_, hr, _⟩ | ⟨_, u, hr, _⟩ | ⟨_, x, u, hr, _, hx, _⟩
+    · subst hw; simp at h1; exact Or.inr ⟨n0, _, h1.symm, hp⟩
+    · exact Or.inl hr
+    · exact Or.inr ⟨46, u, hr, pw_not_dot⟩
+    · exact Or.inr ⟨x, u, hr, hx⟩
+  obtain ⟨ew, er⟩ := prefix_unique pw (n0 :: nu) w (46 :: R) rst hsplit hname h2
+    (Or.inr ⟨46, _, rfl, pw_not_dot⟩) hrst
+  subst ew er
+  have hsw : enumWord n0 { left := n0 :: 46 :: l, right := nu ++ 46 :: R, eof := false, fail := false, bad := false, skipws := sk } =
+      (n0 :: nu, 46, { left := 46 :: ((n0 :: nu).reverse ++ 46 :: l), right := R, eof := false, fail := false, bad := false, skipws := sk }) := by
+    rcases h3 with ⟨hw, _, _⟩ | ⟨_, hr, _⟩ | ⟨_, u, hr, he⟩ | ⟨_, x, u, hr, hxq, _, _⟩
+    · cases hw
+    · cases hr
+    · simp only [List.cons.injEq, true_and] at hr; subst hr; exact he
+    · simp only [List.cons.injEq] at hr; exact absurd hr.1.symm hxq
+  have hfin : enumFinish lex k true false (n0 :: nu) 46 Sev.null = (some i, Sev.null) := by
+    simp only [List.map_cons] at hfind
+    simp [enumFinish, hfind, hset, Sev.warnIf]
+  simp only [enumRead, readEnum, List.cons_append, ws_good0 _ _ _ _ (show isSpace 46 = false from by decide), IStream.good,
+    Bool.not_false, Bool.and_self, Bool.not_true, Bool.false_eq_true, if_false, getInto_good, beq_self_eq_true, Bool.true_or,
+    if_true, hsw, List.isEmpty_cons, hfin]
+  simp
+
+def enumKindOf : ElemTy → EnumKind
+  | .boolean => .boolean
+  | .logical => .logical
+  | .enum items => .enum items
+  | _ => .boolean
+
+def EnumTy (ty : ElemTy) : Prop := ty = .boolean ∨ ty = .logical ∨ ∃ items, ty = .enum items
+
+theorem scalarNodeReadAttr_enum (env : Env F) (ty : ElemTy) (hty : EnumTy ty) (opt : Bool) (s : IStream) :
+    attrSTEPread.scalarNodeReadAttr env ty opt s =
+      .ok ((checkRemainingInput env.lex (some attrDelims) (enumRead env.lex (enumKindOf ty) opt s .null).2.1
+              (enumRead env.lex (enumKindOf ty) opt s .null).2.2).2,
+           valueToAtom (enumValue (enumKindOf ty) (enumRead env.lex (enumKindOf ty) opt s .null).1 : Value F),
+           (checkRemainingInput env.lex (some attrDelims) (enumRead env.lex (enumKindOf ty) opt s .null).2.1
+              (enumRead env.lex (enumKindOf ty) opt s .null).2.2).1) := by
+  rcases hty with rfl | rfl | ⟨items, rfl⟩ <;> (unfold attrSTEPread.scalarNodeReadAttr; rfl)
+
+/-- an ENUMERATION / BOOLEAN / LOGICAL attribute: `.` item `.` for a declared item -/
+theorem attr_enum (env : Env F) (strict : Bool) (a : AttrD) (ty : ElemTy) (hty : a.ty = .one ty) (het : EnumTy ty)
+    (hder : a.derived = false) (hcfg : env.lex.criSkipsComments = true)
+    (name : List Byte) (i : Nat) (hne : name ≠ []) (hname : name.all pw = true)
+    (hfind : findName (enumKindOf ty).table (name.map toUpper) = some i) (hset : (enumKindOf ty).isUnsetIdx i = false)
+    (l : List Byte) (sk : Bool) (seps : List Byte) (hs : Seps seps) (d : Byte) (rest : List Byte) (hd : d = 44 ∨ d = 41) :
+    attrSTEPread env strict a (G l (46 :: (name ++ [46]) ++ (seps ++ d :: rest)) sk) =
+      .ok (.null, .one (.atom (.enum i)), G (seps.reverse ++ ((46 :: (name ++ [46])).reverse ++ l)) (d :: rest) sk) := by
+  have hshape : 46 :: (name ++ [46]) ++ (seps ++ d :: rest) = 46 :: (name ++ 46 :: (seps ++ d :: rest)) := by simp
+  unfold attrSTEPread
+  rw [hshape, show (G l (46 :: (name ++ 46 :: (seps ++ d :: rest))) sk).ws = G l (46 :: (name ++ 46 :: (seps ++ d :: rest))) sk
+    from ws_good0 l 46 _ sk (by decide)]
+  simp only [bind, Except.bind, pure, Except.pure]
+  rw [show (G l (46 :: (name ++ 46 :: (seps ++ d :: rest))) sk).peekC = (46, G l (46 :: (name ++ 46 :: (seps ++ d :: rest))) sk)
+    from peekC_good l 46 _ sk]
+  have e36 : ((46 : Byte) == 36) = false := by decide
+  have e44 : ((46 : Byte) == 44) = false := by decide
+  have e41 : ((46 : Byte) == 41) = false := by decide
+  simp only [hder, Bool.false_eq_true, if_false, e36, e44, e41, Bool.or_self, hty]
+  have hns : (match ty with | .select n => (none : Option Unit) | _ => some ()) = some () := by
+    rcases het with rfl | rfl | ⟨items, rfl⟩ <;> rfl
+  have hmain : attrSTEPread.scalarNodeReadAttr env ty a.optional (G l (46 :: (name ++ 46 :: (seps ++ d :: rest))) sk) =
+      .ok (.null, .enum i, G (seps.reverse ++ (46 :: (name.reverse ++ 46 :: l))) (d :: rest) sk) := by
+    rw [scalarNodeReadAttr_enum env ty het, enumRead_tok env.lex (enumKindOf ty) a.optional name i hne hname hfind hset l sk _]
+    simp only
+    rw [cri_seps env.lex hcfg seps hs _ rest d false sk .null hd]
+    simp [enumValue, hset, valueToAtom]
+  rcases het with rfl | rfl | ⟨items, rfl⟩ <;> (simp only [] ; rw [hmain]; simp)
+
+/-! ### BINARY -/
+
+theorem readBinary_tok (lex : LexCfg) (hex : List Byte) (hne : hex ≠ []) (hhex : hex.all isXDigit = true)
+    (l : List Byte) (sk : Bool) (R : List Byte) :
+    readBinary lex true (G l (34 :: (hex ++ 34 :: R)) sk) .null = (hex, G (34 :: (hex.reverse ++ 34 :: l)) R sk, .null) := by
+  obtain ⟨h0, hu, rfl⟩ : ∃ h0 hu, hex = h0 :: hu := by
+    cases hex with
+    | nil => exact absurd rfl hne
+    | cons h0 hu => exact ⟨h0, hu, rfl⟩
+  obtain ⟨w, rst, h1, h2, h3⟩ := scanWord_spec isXDigit 34 h0 (34 :: l) (hu ++ 34 :: R) sk
+  have hsplit : (h0 :: hu) ++ (34 :: R) = w ++ rst := by simpa using h1
+  have hrst : rst = [] ∨ ∃ c t, rst = c :: t ∧ isXDigit c = false := by
+    rcases h3 with ⟨hw, hp, _⟩ | ⟨_, hr, _⟩ | ⟨_, u, hr, hq, _⟩ | ⟨_, x, u, hr, _, hx, _⟩
+    · subst hw; simp at h1; exact Or.inr ⟨h0, _, h1.symm, hp⟩
+    · exact Or.inl hr
+    · exact Or.inr ⟨34, u, hr, hq⟩
+    · exact Or.inr ⟨x, u, hr, hx⟩
+  obtain ⟨ew, er⟩ := prefix_unique isXDigit (h0 :: hu) w (34 :: R) rst hsplit hhex h2
+    (Or.inr ⟨34, _, rfl, by decide⟩) hrst
+  subst ew er
+  have hsw : scanWord isXDigit 34 h0 { left := h0 :: 34 :: l, right := hu ++ 34 :: R, eof := false, fail := false, bad := false, skipws := sk } =
+      (h0 :: hu, 34, { left := 34 :: ((h0 :: hu).reverse ++ 34 :: l), right := R, eof := false, fail := false, bad := false, skipws := sk }) := by
+    rcases h3 with ⟨hw, _, _⟩ | ⟨_, hr, _⟩ | ⟨_, u, hr, _, he⟩ | ⟨_, x, u, hr, hxq, _, _⟩
+    · cases hw
+    · cases hr
+    · simp only [List.cons.injEq, true_and] at hr; subst hr; exact he
+    · simp only [List.cons.injEq] at hr; exact absurd hr.1.symm hxq
+  simp only [readBinary, List.cons_append, ws_good0 _ _ _ _ (show isSpace 34 = false from by decide), IStream.good, Bool.not_false,
+    Bool.and_self, Bool.not_true, getInto_good, beq_self_eq_true, Bool.true_or, if_true, hsw, Bool.false_eq_true, if_false]
+  simp [Sev.warnIf]
+
+theorem scalarNodeRead_binary (env : Env F) (s : IStream) :
+    scalarNodeRead env .binary s =
+      .ok ((readBinary env.lex true s .null).2.2,
+           (if (readBinary env.lex true s .null).1.isEmpty then Atom.unset else Atom.bin (readBinary env.lex true s .null).1),
+           (readBinary env.lex true s .null).2.1) := by
+  unfold scalarNodeRead
+  rfl
+
+/-- a BINARY attribute: `"` hexadecimal digits `"` -/
+theorem attr_binary (env : Env F) (strict : Bool) (a : AttrD) (hty : a.ty = .one .binary) (hder : a.derived = false)
+    (hcfg : env.lex.criSkipsComments = true) (hex : List Byte) (hne : hex ≠ []) (hhex : hex.all isXDigit = true)
+    (l : List Byte) (sk : Bool) (seps : List Byte) (hs : Seps seps) (d : Byte) (rest : List Byte) (hd : d = 44 ∨ d = 41) :
+    attrSTEPread env strict a (G l (34 :: (hex ++ [34]) ++ (seps ++ d :: rest)) sk) =
+      .ok (.null, .one (.atom (.bin hex)), G (seps.reverse ++ ((34 :: (hex ++ [34])).reverse ++ l)) (d :: rest) sk) := by
+  have hshape : 34 :: (hex ++ [34]) ++ (seps ++ d :: rest) = 34 :: (hex ++ 34 :: (seps ++ d :: rest)) := by simp
+  unfold attrSTEPread
+  rw [hshape, show (G l (34 :: (hex ++ 34 :: (seps ++ d :: rest))) sk).ws = G l (34 :: (hex ++ 34 :: (seps ++ d :: rest))) sk
+    from ws_good0 l 34 _ sk (by decide)]
+  simp only [bind, Except.bind, pure, Except.pure]
+  rw [show (G l (34 :: (hex ++ 34 :: (seps ++ d :: rest))) sk).peekC = (34, G l (34 :: (hex ++ 34 :: (seps ++ d :: rest))) sk)
+    from peekC_good l 34 _ sk]
+  have e36 : ((34 : Byte) == 36) = false := by decide
+  have e44 : ((34 : Byte) == 44) = false := by decide
+  have e41 : ((34 : Byte) == 41) = false := by decide
+  simp only [hder, Bool.false_eq_true, if_false, e36, e44, e41, Bool.or_self, hty]
+  unfold attrSTEPread.scalarNodeReadAttr
+  simp only [bind, Except.bind, pure, Except.pure]
+  rw [scalarNodeRead_binary, readBinary_tok env.lex hex hne hhex l sk _]
+  simp only
+  rw [cri_seps env.lex hcfg seps hs _ rest d false sk .null hd]
+  have : hex.isEmpty = false := by cases hex <;> simp_all
+  simp [this]
+
+/-! ### REAL -/
+
+theorem seps_realCont (seps : List Byte) (hs : Seps seps) (d : Byte) (rest : List Byte) (hd : d = 44 ∨ d = 41) :
+    RealCont (seps ++ d :: rest) := by
+  obtain ⟨c, u, h, hc⟩ : ∃ c u, seps ++ d :: rest = c :: u ∧ (isSpace c = true ∨ c = 47 ∨ c = 44 ∨ c = 41) := by
+    cases hs with
+    | blanks _ hsp =>
+      cases seps with
+      | nil => exact ⟨d, rest, rfl, by rcases hd with rfl | rfl <;> simp⟩
+      | cons x sp' => exact ⟨x, sp' ++ d :: rest, rfl, Or.inl (by simp at hsp; exact hsp.1)⟩
+    | comment sp body t hsp hb ht =>
+      cases sp with
+      | nil => exact ⟨47, _, rfl, Or.inr (Or.inl rfl)⟩
+      | cons x sp' => exact ⟨x, _, rfl, Or.inl (by simp at hsp; exact hsp.1)⟩
+  refine Or.inr ⟨c, u, h, ?_, ?_, ?_⟩
+  · rcases hc with h1 | rfl | rfl | rfl
+    · exact space_not_digit h1
+    · decide
+    · decide
+    · decide
+  · intro e; subst e; rcases hc with h1 | h1 | h1 | h1 <;> revert h1 <;> decide
+  · intro e; subst e; rcases hc with h1 | h1 | h1 | h1 <;> revert h1 <;> decide
+
+/-- `ReadReal` on a token of the grammar `real` whose denotation converts, standing anywhere, followed by any layout and a
+    delimiter: exactly that double, no error, the stream rests at the delimiter -/
+theorem readReal_tok (ops : FloatOps F) (lex : LexCfg) (hcfg : lex.criSkipsComments = true)
+    (tok : List Byte) (dec : Decimal) (v : F) (htok : isReal tok = true) (hden : denoteReal tok = some dec)
+    (hv : ops.ofDecimal dec = some v) (hbuf : lex.realBuf = 0 ∨ tok.length < lex.realBuf)
+    (l : List Byte) (sk : Bool) (seps : List Byte) (hs : Seps seps) (d : Byte) (rest : List Byte) (hd : d = 44 ∨ d = 41) :
+    readReal ops lex (some attrDelims) (G l (tok ++ (seps ++ d :: rest)) sk) .null =
+      .ok (some v, G (seps.reverse ++ (tok.reverse ++ l)) (d :: rest) sk, .null) := by
+  obtain ⟨sg, ip, fp, ex, rfl, hsg, hip1, hip, hfp, hex⟩ := isReal_shape tok htok
+  obtain ⟨c, u, hcu, hcs⟩ : ∃ c u, realText sg ip fp 69 ex = c :: u ∧ isSpace c = false := by
+    obtain ⟨i0, iu, rfl⟩ : ∃ i0 iu, ip = i0 :: iu := by
+      cases ip with
+      | nil => exact absurd rfl hip1
+      | cons i0 iu => exact ⟨i0, iu, rfl⟩
+    have hi0 : isDigit i0 = true := by simp at hip; exact hip.1
+    rcases hsg with rfl | rfl | rfl
+    · exact ⟨i0, iu ++ 46 :: (fp ++ exText 69 ex), by simp [realText], digit_not_space hi0⟩
+    · exact ⟨43, i0 :: (iu ++ 46 :: (fp ++ exText 69 ex)), by simp [realText], by decide⟩
+    · exact ⟨45, i0 :: (iu ++ 46 :: (fp ++ exText 69 ex)), by simp [realText], by decide⟩
+  have hcont := seps_realCont seps hs d rest hd
+  have hcol := realCollect_realText sg ip fp ex (seps ++ d :: rest) hsg hip1 hip hfp hex hcont
+  have hparse := parse_scanFloat_realText sg ip fp 69 ex hsg hip1 hip hfp (Or.inl rfl) hex
+  have hden' := parse_realText sg ip fp 69 ex hsg hip1 hip hfp (Or.inl rfl) hex
+  have hdec : dec = ⟨sg == [45], digitsVal (ip ++ fp) 0, exVal ex - (fp.length : Int)⟩ := by
+    unfold denoteReal at hden; rw [hden'] at hden; simpa using hden.symm
+  have hconv : ops.conv (scanFloat [] (realText sg ip fp 69 ex)).1 = .ok v := by
+    unfold FloatOps.conv; rw [hparse]; simp only; rw [← hdec, hv]
+  have hov : (lex.realBuf != 0 && decide ((realText sg ip fp 69 ex).length ≥ lex.realBuf)) = false := by
+    rcases hbuf with h0 | hlt
+    · simp [h0]
+    · simp; intro _; omega
+  have hrne : (seps ++ d :: rest).isEmpty = false := by
+    rcases hcont with h | ⟨x, y, hxy, _⟩
+    · simp at h
+    · rw [hxy]; rfl
+  have hcri := cri_seps lex hcfg seps hs ((realText sg ip fp 69 ex).reverse ++ l) rest d false sk Sev.null hd
+  rw [hcu] at hcol hconv hov hcri ⊢
+  simp only [List.cons_append, readReal, ws_good0 _ _ _ _ hcs, IStream.good, Bool.not_false, Bool.and_self, Bool.not_true,
+    Bool.false_eq_true, if_false]
+  simp only [List.cons_append] at hcol
+  simp only [hcol, hov, Bool.false_eq_true, if_false, hconv, hrne, List.append_nil]
+  simp only [show Sev.null.greater Sev.null = Sev.null from rfl, hcri]
+
+theorem scalarNodeReadAttr_real (env : Env F) (opt : Bool) (s : IStream) :
+    attrSTEPread.scalarNodeReadAttr env .real opt s = scalarNodeRead env .real s := by
+  unfold attrSTEPread.scalarNodeReadAttr
+  rfl
+
+/-- a REAL attribute: any token of the grammar whose value converts to a double other than the in-band null -/
+theorem attr_real (env : Env F) (strict : Bool) (a : AttrD) (hty : a.ty = .one .real) (hder : a.derived = false)
+    (hcfg : env.lex.criSkipsComments = true)
+    (tok : List Byte) (dec : Decimal) (v : F) (htok : isReal tok = true) (hden : denoteReal tok = some dec)
+    (hv : env.ops.ofDecimal dec = some v) (hnn : env.ops.isRealNull v = false)
+    (hbuf : env.lex.realBuf = 0 ∨ tok.length < env.lex.realBuf)
+    (l : List Byte) (sk : Bool) (seps : List Byte) (hs : Seps seps) (d : Byte) (rest : List Byte) (hd : d = 44 ∨ d = 41) :
+    attrSTEPread env strict a (G l (tok ++ (seps ++ d :: rest)) sk) =
+      .ok (.null, .one (.atom (.real v)), G (seps.reverse ++ (tok.reverse ++ l)) (d :: rest) sk) := by
+  have hr := readReal_tok env.ops env.lex hcfg tok dec v htok hden hv hbuf l sk seps hs d rest hd
+  obtain ⟨sg, ip, fp, ex, htx, hsg, hip1, hip, hfp, hex⟩ := isReal_shape tok htok
+  obtain ⟨c, u, hcu, hcs, hc36, hc44, hc41⟩ : ∃ c u, tok = c :: u ∧ isSpace c = false ∧ c ≠ 36 ∧ c ≠ 44 ∧ c ≠ 41 := by
+    obtain ⟨i0, iu, rfl⟩ : ∃ i0 iu, ip = i0 :: iu := by
+      cases ip with
+      | nil => exact absurd rfl hip1
+      | cons i0 iu => exact ⟨i0, iu, rfl⟩
+    have hi0 : isDigit i0 = true := by simp at hip; exact hip.1
+    have hi0' : isSpace i0 = false ∧ i0 ≠ 36 ∧ i0 ≠ 44 ∧ i0 ≠ 41 := by
+      refine ⟨digit_not_space hi0, ?_, ?_, ?_⟩ <;> (simp [isDigit] at hi0; bomega)
+    rcases hsg with rfl | rfl | rfl
+    · exact ⟨i0, iu ++ 46 :: (fp ++ exText 69 ex), by rw [htx]; simp [realText], hi0'.1, hi0'.2.1, hi0'.2.2.1, hi0'.2.2.2⟩
+    · exact ⟨43, i0 :: (iu ++ 46 :: (fp ++ exText 69 ex)), by rw [htx]; simp [realText], by decide, by decide, by decide, by decide⟩
+    · exact ⟨45, i0 :: (iu ++ 46 :: (fp ++ exText 69 ex)), by rw [htx]; simp [realText], by decide, by decide, by decide, by decide⟩
+  unfold attrSTEPread
+  rw [hcu] at hr ⊢
+  simp only [List.cons_append] at hr ⊢
+  rw [show (G l (c :: (u ++ (seps ++ d :: rest))) sk).ws = G l (c :: (u ++ (seps ++ d :: rest))) sk from ws_good0 l c _ sk hcs]
+  simp only [bind, Except.bind, pure, Except.pure]
+  rw [show (G l (c :: (u ++ (seps ++ d :: rest))) sk).peekC = (c, G l (c :: (u ++ (seps ++ d :: rest))) sk) from peekC_good l c _ sk]
+  have e36 : (c == 36) = false := by simpa using hc36
+  have e44 : (c == 44) = false := by simpa using hc44
+  have e41 : (c == 41) = false := by simpa using hc41
+  simp only [hder, Bool.false_eq_true, if_false, e36, e44, e41, Bool.or_self, hty]
+  rw [scalarNodeReadAttr_real]
+  unfold scalarNodeRead
+  simp only [hr, liftOutcome, bind, Except.bind, pure, Except.pure]
+  simp [realValue, hnn, valueToAtom]
+
 /-! ### composition over a parameter list -/
 
 /-- one parameter as it stands in a file: attribute, stored value, token, layout before and after the token -/
@@ -616,5 +939,54 @@ theorem ParamOK.aggrInt (env : Env F) (strict : Bool) (hcfg : env.lex.criSkipsCo
     ParamOK env strict { a := a, v := .aggr (es.map elemVal), tok := aggrText es inner, before := before, after := after } :=
   ⟨hred, ⟨40, (aggrText es inner).tail, by cases es <;> rfl, by decide, by decide⟩, hb, fun l sk d rest hd =>
     ⟨sk, attr_aggr_int env strict a hty hder hcfg hagg es inner hok hin l sk after ha d rest hd⟩⟩
+
+theorem ParamOK.string (env : Env F) (strict : Bool) (hcfg : env.lex.criSkipsComments = true) (a : AttrD)
+    (hty : a.ty = .one .string) (hder : a.derived = false) (hred : a.redefining = false)
+    (b : List Byte) (hb : StringBody b) (before after : List Byte) (hbf : Seps before) (ha : Seps after) :
+    ParamOK env strict { a := a, v := .one (.atom (.str (39 :: (b ++ [39])))), tok := 39 :: (b ++ [39]),
+                         before := before, after := after } :=
+  ⟨hred, ⟨39, b ++ [39], rfl, by decide, by decide⟩, hbf, fun l sk d rest hd =>
+    ⟨false, attr_string env strict a hty hder hcfg b hb l sk after ha d rest hd⟩⟩
+
+theorem ParamOK.enum (env : Env F) (strict : Bool) (hcfg : env.lex.criSkipsComments = true) (a : AttrD) (ty : ElemTy)
+    (hty : a.ty = .one ty) (het : EnumTy ty) (hder : a.derived = false) (hred : a.redefining = false)
+    (name : List Byte) (i : Nat) (hne : name ≠ []) (hname : name.all pw = true)
+    (hfind : findName (enumKindOf ty).table (name.map toUpper) = some i) (hset : (enumKindOf ty).isUnsetIdx i = false)
+    (before after : List Byte) (hbf : Seps before) (ha : Seps after) :
+    ParamOK env strict { a := a, v := .one (.atom (.enum i)), tok := 46 :: (name ++ [46]), before := before, after := after } :=
+  ⟨hred, ⟨46, name ++ [46], rfl, by decide, by decide⟩, hbf, fun l sk d rest hd =>
+    ⟨sk, attr_enum env strict a ty hty het hder hcfg name i hne hname hfind hset l sk after ha d rest hd⟩⟩
+
+theorem ParamOK.binary (env : Env F) (strict : Bool) (hcfg : env.lex.criSkipsComments = true) (a : AttrD)
+    (hty : a.ty = .one .binary) (hder : a.derived = false) (hred : a.redefining = false)
+    (hex : List Byte) (hne : hex ≠ []) (hhex : hex.all isXDigit = true)
+    (before after : List Byte) (hbf : Seps before) (ha : Seps after) :
+    ParamOK env strict { a := a, v := .one (.atom (.bin hex)), tok := 34 :: (hex ++ [34]), before := before, after := after } :=
+  ⟨hred, ⟨34, hex ++ [34], rfl, by decide, by decide⟩, hbf, fun l sk d rest hd =>
+    ⟨sk, attr_binary env strict a hty hder hcfg hex hne hhex l sk after ha d rest hd⟩⟩
+
+theorem isReal_head (tok : List Byte) (h : isReal tok = true) : ∃ c u, tok = c :: u ∧ isSpace c = false ∧ c ≠ 47 := by
+  obtain ⟨sg, ip, fp, ex, htx, hsg, hip1, hip, _, _⟩ := isReal_shape tok h
+  obtain ⟨i0, iu, rfl⟩ : ∃ i0 iu, ip = i0 :: iu := by
+    cases ip with
+    | nil => exact absurd rfl hip1
+    | cons i0 iu => exact ⟨i0, iu, rfl⟩
+  have hi0 : isDigit i0 = true := by simp at hip; exact hip.1
+  rcases hsg with rfl | rfl | rfl
+  · refine ⟨i0, iu ++ 46 :: (fp ++ exText 69 ex), by rw [htx]; simp [realText], digit_not_space hi0, ?_⟩
+    simp [isDigit] at hi0; bomega
+  · exact ⟨43, i0 :: (iu ++ 46 :: (fp ++ exText 69 ex)), by rw [htx]; simp [realText], by decide, by decide⟩
+  · exact ⟨45, i0 :: (iu ++ 46 :: (fp ++ exText 69 ex)), by rw [htx]; simp [realText], by decide, by decide⟩
+
+theorem ParamOK.real (env : Env F) (strict : Bool) (hcfg : env.lex.criSkipsComments = true) (a : AttrD)
+    (hty : a.ty = .one .real) (hder : a.derived = false) (hred : a.redefining = false)
+    (tok : List Byte) (dec : Decimal) (v : F) (htok : isReal tok = true) (hden : denoteReal tok = some dec)
+    (hv : env.ops.ofDecimal dec = some v) (hnn : env.ops.isRealNull v = false)
+    (hbuf : env.lex.realBuf = 0 ∨ tok.length < env.lex.realBuf)
+    (before after : List Byte) (hbf : Seps before) (ha : Seps after) :
+    ParamOK env strict { a := a, v := .one (.atom (.real v)), tok := tok, before := before, after := after } := by
+  obtain ⟨c, u, hcu, hcs, h47⟩ := isReal_head tok htok
+  exact ⟨hred, ⟨c, u, hcu, hcs, h47⟩, hbf, fun l sk d rest hd =>
+    ⟨sk, attr_real env strict a hty hder hcfg tok dec v htok hden hv hnn hbuf l sk after ha d rest hd⟩⟩
 
 end StepModel.P21.RLemmas
